@@ -1,5 +1,8 @@
 /* C06: replays Ownership.tla programs on the real container classes.
- * usage: own_replay <seq|vec|map> <array|linked_list|dlinked_list> <nhandles> <scriptfile> [first]
+ * usage: own_replay <seq|vec|map> <array|linked_list|dlinked_list> <values e.g. 1,1,2> <scriptfile> [first]
+ * Handle h carries the text of values[h]; several handles may carry EQUAL texts.  The library addresses elements by value;
+ * ownership is by identity.  When remove() hands back an object equal to the probe but not the one the script named, the
+ * two equal-valued handles swap their labels (sound: they are indistinguishable by value), so the ledger stays by identity.
  * State token (keys sorted): {cont=live|deleted,copy=none|live,held={arrays=..,iters=..,lists=..,pairs=..},keys=[..],order=[..],own=[..]}
  * own[h]: "none" never created, "prog" the harness holds it and it is not inside the container, "cont" found inside the
  * container BY IDENTITY, "freed" otherwise.  Everything the ledger says the program owns is touched (read) after every
@@ -10,6 +13,7 @@
 #define MAXH 8
 static const char *kind, *cls;
 static int NH;
+static int VAL[MAXH + 1];
 static spif_obj_t C, D;                        /* container, copy */
 static spif_obj_t Hd[MAXH + 1];                /* program-created objects */
 static int created[MAXH + 1], deleted[MAXH + 1], given[MAXH + 1];
@@ -28,7 +32,17 @@ static long count(spif_obj_t c) { return is_seq() ? SPIF_LIST_COUNT(c) : is_vec(
 static spif_iterator_t iterator(spif_obj_t c) { return is_seq() ? SPIF_LIST_ITERATOR(c) : is_vec() ? SPIF_VECTOR_ITERATOR(c) : SPIF_MAP_ITERATOR(c); }
 static int hid(spif_obj_t o) { return SPIF_OBJ_ISNULL(o) ? 0 : atoi((const char *) SPIF_STR_STR(SPIF_STR(o))); }
 static int ident(spif_obj_t o) { int h; for (h = 1; h <= NH; h++) if (created[h] && !deleted[h] && Hd[h] == o) return h; return 0; }
-static void mkname(int h, char *b) { sprintf(b, "%d", h); }
+static void mkname(int h, char *b) { sprintf(b, "%d", VAL[h]); }
+/* the object `r` came back from the container where the script named handle h: make h name it */
+static const char *relabel(int h, spif_obj_t r) {
+    int h2 = ident(r); spif_obj_t t;
+    if (!h2) return "container_handed_back_an_object_it_was_never_given";
+    if (!given[h2]) return "container_handed_back_an_object_the_program_already_owns";
+    if (VAL[h2] != VAL[h]) return "container_handed_back_an_object_of_another_value";
+    if (h2 != h) { t = Hd[h]; Hd[h] = Hd[h2]; Hd[h2] = t; }
+    given[h] = 0;
+    return NULL;
+}
 
 /* the program reads every object it still owns */
 static const char *touch_all(void) {
@@ -65,14 +79,16 @@ static const char *project(vh_sb *out) {
         /* keys present, observed through has_key/get with fresh probes, ascending */
         int first = 1;
         for (h = 1; h <= NH; h++) {
-            char b[16]; spif_str_t probe; spif_bool_t has; spif_obj_t v;
+            char b[16]; spif_str_t probe; spif_bool_t has; spif_obj_t v; int dupv = 0, g;
+            for (g = 1; g < h; g++) if (VAL[g] == VAL[h]) dupv = 1;
+            if (dupv) continue;               /* one probe per distinct value, ascending */
             mkname(h, b); probe = spif_str_new_from_ptr((spif_charptr_t) b);
             has = SPIF_MAP_HAS_KEY(C, probe); v = SPIF_MAP_GET(C, probe);
             spif_str_del(probe);
             if ((has ? 1 : 0) != (SPIF_OBJ_ISNULL(v) ? 0 : 1)) return "map:has_key_and_get_disagree";
             if (has) {
                 if (ident(v)) return "map_returns_the_callers_own_value_object";
-                sb_printf(out, "%s%d", first ? "" : ",", h); first = 0; n++;
+                sb_printf(out, "%s%d", first ? "" : ",", VAL[h]); first = 0; n++;
             }
         }
         if (count(C) != n) { snprintf(invmsg, sizeof(invmsg), "map:count=%ld_but_%ld_keys_answer", count(C), n); return invmsg; }
@@ -86,9 +102,11 @@ static const char *project(vh_sb *out) {
             if (!SPIF_ITERATOR_HAS_NEXT(it)) { SPIF_ITERATOR_DEL(it); return "iterator_short"; }
             e = SPIF_ITERATOR_NEXT(it);
             h = ident(e);
-            if (!h || hid(e) != h) { SPIF_ITERATOR_DEL(it); return "container_holds_an_object_that_is_not_the_one_given"; }
+            if (!h || hid(e) != VAL[h]) { SPIF_ITERATOR_DEL(it); return "container_holds_an_object_that_is_not_one_it_was_given"; }
+            if (incont[h]) { SPIF_ITERATOR_DEL(it); return "container_holds_the_same_object_twice"; }
+            if (!given[h]) { SPIF_ITERATOR_DEL(it); return "container_still_holds_an_object_it_handed_back"; }
             incont[h] = 1;
-            sb_printf(out, "%s%d", i ? "," : "", h);
+            sb_printf(out, "%s%d", i ? "," : "", VAL[h]);
         }
         if (SPIF_ITERATOR_HAS_NEXT(it)) { SPIF_ITERATOR_DEL(it); return "iterator_long"; }
         SPIF_ITERATOR_DEL(it);
@@ -139,32 +157,37 @@ static const char *vh_step(const vh_step_t *st, vh_sb *ret, vh_sb *state) {
         spif_bool_t r = is_seq() ? SPIF_LIST_APPEND(C, Hd[h]) : SPIF_VECTOR_INSERT(C, Hd[h]);
         given[h] = 1;
         sb_bool(ret, r);
+    } else if (OP("give_refused")) {
+        spif_bool_t r = SPIF_LIST_INSERT_AT(C, Hd[h], (spif_listidx_t) (-(count(C) + 1)));
+        /* refused: the object is still the caller's (it is read again right below and deleted at the end) */
+        sb_bool(ret, r);
     } else if (OP("take_back")) {
-        spif_str_t probe; spif_obj_t r;
+        spif_str_t probe; spif_obj_t r; const char *inv;
         mkname(h, b); probe = spif_str_new_from_ptr((spif_charptr_t) b);
         r = is_seq() ? SPIF_LIST_REMOVE(C, probe) : SPIF_VECTOR_REMOVE(C, probe);
         spif_str_del(probe);
-        if (r != Hd[h]) return "remove_did_not_hand_back_the_object_that_was_given";
-        given[h] = 0;
-        sb_int(ret, h);
+        if (SPIF_OBJ_ISNULL(r)) return "remove_of_a_stored_value_returned_NULL";
+        if ((inv = relabel(h, r))) return inv;
+        sb_int(ret, hid(r));
     } else if (OP("take_first")) {
-        spif_obj_t r;
+        spif_obj_t r; const char *inv;
         if (is_seq()) r = SPIF_LIST_REMOVE_AT(C, 0);
         else { spif_obj_t *a = SPIF_VECTOR_TO_ARRAY(C); spif_obj_t first = a[0]; FREE(a); r = SPIF_VECTOR_REMOVE(C, first); }
-        i = ident(r);
-        if (!i) return "remove_at_did_not_hand_back_a_given_object";
-        given[i] = 0;
-        sb_int(ret, i);
+        if (SPIF_OBJ_ISNULL(r)) return "remove_at(0)_returned_NULL";
+        if ((inv = relabel(h, r))) return inv;
+        sb_int(ret, hid(r));
     } else if (OP("lend")) {
-        spif_str_t probe; spif_obj_t r;
+        spif_str_t probe; spif_obj_t r; int h2;
         mkname(h, b); probe = spif_str_new_from_ptr((spif_charptr_t) b);
         r = is_seq() ? SPIF_LIST_FIND(C, probe) : SPIF_VECTOR_FIND(C, probe);
         spif_str_del(probe);
-        sb_int(ret, ident(r));
+        h2 = ident(r);
+        if (!h2 || !given[h2]) return "find_returned_an_object_the_container_does_not_own";
+        sb_int(ret, hid(r));
     } else if (OP("to_array")) {
         long n = count(C), j; spif_obj_t *a = is_seq() ? SPIF_LIST_TO_ARRAY(C) : SPIF_VECTOR_TO_ARRAY(C);
         sb_putc(ret, '[');
-        for (j = 0; j < n; j++) sb_printf(ret, "%s%d", j ? "," : "", ident(a[j]));
+        for (j = 0; j < n; j++) { if (!ident(a[j])) return "to_array_holds_a_foreign_object"; sb_printf(ret, "%s%d", j ? "," : "", hid(a[j])); }
         sb_putc(ret, ']');
         arrays[narrays++] = a;
     } else if (OP("free_array")) {
@@ -218,8 +241,9 @@ static const char *vh_step(const vh_step_t *st, vh_sb *ret, vh_sb *state) {
 }
 
 int main(int argc, char **argv) {
-    if (argc < 5) { fprintf(stderr, "usage: %s <seq|vec|map> <class> <nhandles> <scripts> [first]\n", argv[0]); return 2; }
-    kind = argv[1]; cls = argv[2]; NH = atoi(argv[3]);
+    if (argc < 5) { fprintf(stderr, "usage: %s <seq|vec|map> <class> <values> <scripts> [first]\n", argv[0]); return 2; }
+    kind = argv[1]; cls = argv[2];
+    { char *t = strdup(argv[3]), *q; NH = 0; for (q = strtok(t, ","); q && NH < MAXH; q = strtok(NULL, ",")) VAL[++NH] = atoi(q); }
     libast_set_program_name("own_replay");
     return vh_main(argc, argv, 4);
 }
